@@ -82,9 +82,22 @@ pub enum Kind {
     Timeout(Inner),
     TimeoutAt(Inner),
     /// `interval(period)`: first tick at once
-    Interval { period_ms: u8, ticks: u8 },
+    Interval {
+        period_ms: u8,
+        ticks: u8,
+        /// attempt j (counted over the whole life of the interval) awaits `tick()` through
+        /// `timeout(cuts[j] ms, ..)` when `cuts[j] > 0`: if the wait is longer, the pending `tick()`
+        /// future is dropped and `tick()` is called again (before the first tick or between ticks)
+        #[serde(default)]
+        cuts: [u8; 4],
+    },
     /// `interval_at(deadline, period)`
-    IntervalAt { period_ms: u8, ticks: u8 },
+    IntervalAt {
+        period_ms: u8,
+        ticks: u8,
+        #[serde(default)]
+        cuts: [u8; 4],
+    },
 }
 
 #[derive(Debug, Clone, Serialize, Deserialize, PartialEq)]
@@ -132,6 +145,8 @@ enum Rec {
     InnerDone { i: usize, at: Instant },
     Tick { i: usize, k: usize, tick: Instant, at: Instant },
     IntervalDone { i: usize },
+    /// a `timeout(cut, interval.tick())` elapsed: the pending tick future was dropped
+    Cut { i: usize, at: Instant, lower: Instant, before_first: bool },
 }
 
 type Log = Rc<RefCell<Vec<Rec>>>;
@@ -575,7 +590,7 @@ fn run_once(case: &TimerCase) -> Verdict {
                                     log2.borrow_mut().push(Rec::Done { i, at, ok: Some(r.is_ok()), data: r.ok() });
                                 })
                             }
-                            Kind::Interval { period_ms, ticks } | Kind::IntervalAt { period_ms, ticks } => {
+                            Kind::Interval { period_ms, ticks, cuts } | Kind::IntervalAt { period_ms, ticks, cuts } => {
                                 let period = ms(period_ms as u64 % 14 + 2);
                                 let ticks = ticks as usize % 4 + 1;
                                 let absolute = matches!(spec.kind, Kind::IntervalAt { .. });
@@ -589,8 +604,20 @@ fn run_once(case: &TimerCase) -> Verdict {
                                 }
                                 labels.push(format!("kind:{}", if absolute { "interval_at" } else { "interval" }));
                                 Box::pin(async move {
+                                    let mut attempt = 0usize;
                                     for k in 0..ticks {
-                                        let tick = iv.tick().await;
+                                        let tick = loop {
+                                            let c = cuts.get(attempt).copied().unwrap_or(0) % 21;
+                                            attempt += 1;
+                                            if c == 0 {
+                                                break iv.tick().await;
+                                            }
+                                            let t0 = Instant::now();
+                                            match timeout(ms(c as u64), iv.tick()).await {
+                                                Ok(t) => break t,
+                                                Err(_) => log2.borrow_mut().push(Rec::Cut { i, at: Instant::now(), lower: t0 + ms(c as u64), before_first: k == 0 }),
+                                            }
+                                        };
                                         let at = Instant::now();
                                         log2.borrow_mut().push(Rec::Tick { i, k, tick, at });
                                     }
@@ -837,6 +864,13 @@ fn run_once(case: &TimerCase) -> Verdict {
                     Rec::IntervalDone { i } => {
                         st[i].done = true;
                     }
+                    Rec::Cut { i, at, lower, before_first } => {
+                        if at < lower {
+                            verdict = Some(hard("C09/fired-early/timeout", format!("timeout around a tick of interval #{i} elapsed {:?} early", lower - at)));
+                            break 'outer;
+                        }
+                        labels.push(if before_first { "pending-first-tick-dropped-then-tick-again" } else { "pending-later-tick-dropped-then-tick-again" }.into());
+                    }
                 }
             }
 
@@ -1045,14 +1079,18 @@ fn inner_strategy() -> impl Strategy<Value = Inner> + Clone {
     ]
 }
 
+fn cuts_strategy() -> impl Strategy<Value = [u8; 4]> + Clone {
+    proptest::array::uniform4(prop_oneof![3 => Just(0u8), 2 => 1u8..=20])
+}
+
 fn kind_strategy() -> impl Strategy<Value = Kind> + Clone {
     prop_oneof![
         3 => Just(Kind::Sleep),
         5 => Just(Kind::SleepUntil),
         2 => inner_strategy().prop_map(Kind::Timeout),
         4 => inner_strategy().prop_map(Kind::TimeoutAt),
-        1 => (0u8..14, 0u8..4).prop_map(|(period_ms, ticks)| Kind::Interval { period_ms, ticks }),
-        2 => (0u8..14, 0u8..4).prop_map(|(period_ms, ticks)| Kind::IntervalAt { period_ms, ticks }),
+        1 => (0u8..14, 0u8..4, cuts_strategy()).prop_map(|(period_ms, ticks, cuts)| Kind::Interval { period_ms, ticks, cuts }),
+        3 => (0u8..14, 0u8..4, cuts_strategy()).prop_map(|(period_ms, ticks, cuts)| Kind::IntervalAt { period_ms, ticks, cuts }),
     ]
 }
 
@@ -1108,7 +1146,7 @@ fn case_strategy() -> impl Strategy<Value = TimerCase> + Clone {
                         Kind::Sleep => Kind::SleepUntil,
                         Kind::Timeout(Inner::SleepShort { .. } | Inner::PipeFed { .. }) | Kind::TimeoutAt(Inner::SleepShort { .. } | Inner::PipeFed { .. }) => Kind::TimeoutAt(Inner::Pending),
                         Kind::Timeout(i) => Kind::TimeoutAt(i),
-                        Kind::Interval { period_ms, ticks } => Kind::IntervalAt { period_ms, ticks },
+                        Kind::Interval { period_ms, ticks, cuts } => Kind::IntervalAt { period_ms, ticks, cuts },
                         k => k,
                     };
                     t.create_ms = t.create_ms.min(10);
@@ -1129,7 +1167,7 @@ fn main() {
         "C09",
         "timers",
         "case = driver (io_uring | polling) x event_interval (1,2,61) x 1-12 timers {kind: sleep, sleep_until, timeout(inner), timeout_at(inner), \
-         interval, interval_at (period 2-15 ms, 1-4 ticks); deadline class: past, now, one of three shared group instants (equal deadlines), \
+         interval, interval_at (period 2-15 ms, 1-4 ticks; each of the first four tick() attempts optionally awaited through timeout(1-20 ms): a pending tick() future is dropped and tick() is called again, before the first tick and between ticks); deadline class: past, now, one of three shared group instants (equal deadlines), \
          1-30 ms, 200-600 ms; created 0-40 ms after the start; hosted in a spawned task or held by the harness loop; optionally dropped \
          0/1-20/100-300 ms after creation; optionally the harness does not step the runtime across the deadline (stall); inner futures: ready, pending, sleep ending 30-100 ms before the deadline, sleep ending 5 s after it, \
          pipe read fed 30-100 ms before the deadline, pipe read never fed} x 0-8 noise events from another thread (pipe byte for a reader task, \
@@ -1161,12 +1199,12 @@ fn main() {
                     t(0, Kind::SleepUntil, Dl::Far(0), true, Some(5)),
                     t(2, Kind::Sleep, Dl::Near(4), false, None),
                     t(0, Kind::SleepUntil, Dl::Far(100), false, None),
-                    t(3, Kind::IntervalAt { period_ms: 3, ticks: 3 }, Dl::Group(1), true, None),
+                    t(3, Kind::IntervalAt { period_ms: 3, ticks: 3, cuts: [0; 4] }, Dl::Group(1), true, None),
                     t(3, Kind::TimeoutAt(Inner::SleepShort { lead_ms: 10 }), Dl::Far(50), true, None),
                     t(4, Kind::Timeout(Inner::PipeFed { lead_ms: 20 }), Dl::Far(20), false, None),
                     t(4, Kind::TimeoutAt(Inner::SleepLong), Dl::Near(10), true, None),
                     t(5, Kind::SleepUntil, Dl::Past(3), true, None),
-                    t(5, Kind::Interval { period_ms: 0, ticks: 3 }, Dl::Now, false, Some(250)),
+                    t(5, Kind::Interval { period_ms: 0, ticks: 3, cuts: [0, 1, 0, 1] }, Dl::Now, false, Some(250)),
                 ],
                 noise: vec![(3, Noise::PipeByte), (16, Noise::CrossWake), (120, Noise::PipeByte), (300, Noise::CrossWake)],
             },
@@ -1184,6 +1222,21 @@ fn main() {
                     t(1, Kind::SleepUntil, Dl::Group(1), true, Some(2)),
                 ],
                 noise: vec![(210, Noise::CrossWake)],
+            },
+        ),
+        (
+            "interval-tick-future-dropped-while-pending",
+            TimerCase {
+                poll_driver: true,
+                event_interval: 1,
+                timers: vec![
+                    // first tick abandoned twice before `start`, then awaited
+                    t(0, Kind::IntervalAt { period_ms: 1, ticks: 2, cuts: [5, 7, 0, 0] }, Dl::Far(0), true, None),
+                    t(0, Kind::IntervalAt { period_ms: 9, ticks: 3, cuts: [3, 0, 4, 2] }, Dl::Group(2), false, None),
+                    // abandoned between later ticks
+                    t(1, Kind::Interval { period_ms: 12, ticks: 3, cuts: [0, 3, 0, 5] }, Dl::Now, true, None),
+                ],
+                noise: vec![(30, Noise::CrossWake)],
             },
         ),
         (
